@@ -251,6 +251,10 @@ func (ci *index) findByName(name string) (c *Persistent, found bool) {
 
 // findByIP finds persistent client by IP address.
 func (ci *index) findByIP(ip netip.Addr) (c *Persistent, found bool) {
+	// An IPv4-mapped IPv6 address, e.g. one taken from a forwarding header of
+	// a trusted proxy, denotes the IPv4 host and must match IPv4 identifiers.
+	ip = ip.Unmap()
+
 	uid, found := ci.ipToUID[ip]
 	if found {
 		return ci.uidToClient[uid], true
